@@ -79,7 +79,6 @@ type State struct {
 	Id      int
 	Path    string
 	Model   Model
-	Dump    *dump.Tree
 	Hash    string
 	Depth   int
 	Parent  *State
@@ -90,10 +89,8 @@ type State struct {
 var errRollback = errors.New("verif: rollback after observation")
 
 type succ struct {
-	prog  int
-	hash  string
-	model Model
-	tree  *dump.Tree
+	prog int
+	hash string
 }
 
 type Explorer struct {
@@ -107,12 +104,40 @@ type Explorer struct {
 	trans  int64
 }
 
+var cleanOnce sync.Once
+
+// cleanStale removes scratch directories of harness processes that no longer exist.
+func cleanStale(base string) {
+	entries, err := os.ReadDir(base)
+	if err != nil {
+		return
+	}
+	for _, e := range entries {
+		var pid int
+		if n, _ := fmt.Sscanf(e.Name(), "verif-%d-", &pid); n == 1 && pid > 0 {
+			if _, err := os.Stat(fmt.Sprintf("/proc/%d", pid)); err != nil {
+				_ = os.RemoveAll(filepath.Join(base, e.Name()))
+			}
+		}
+	}
+}
+
 func TmpDir(name string) string {
 	base := "/dev/shm"
 	if st, err := os.Stat(base); err != nil || !st.IsDir() {
 		base = os.TempDir()
 	}
-	d, err := os.MkdirTemp(base, "verif-"+name+"-")
+	cleanOnce.Do(func() { cleanStale(base) })
+	clean := strings.Map(func(r rune) rune {
+		if (r >= 'a' && r <= 'z') || (r >= 'A' && r <= 'Z') || (r >= '0' && r <= '9') {
+			return r
+		}
+		return '_'
+	}, name)
+	if len(clean) > 24 {
+		clean = clean[:24]
+	}
+	d, err := os.MkdirTemp(base, fmt.Sprintf("verif-%d-%s-", os.Getpid(), clean))
 	if err != nil {
 		panic(err)
 	}
@@ -219,7 +244,7 @@ func (e *Explorer) Run() {
 	var t0 *dump.Tree
 	_ = db.View(func(tx *bbolt.Tx) error { t0 = dump.Tx(tx); return nil })
 	_ = db.Close()
-	s0 := &State{Id: 0, Path: p0, Model: e.Sc.NewModel(), Dump: t0, Hash: t0.Hash()}
+	s0 := &State{Id: 0, Path: p0, Model: e.Sc.NewModel(), Hash: t0.Hash()}
 	if d := dump.Diff(e.Sc.Normalize(t0), s0.Model.Render()); d != "" {
 		e.violation("initial-state-mismatch", s0, nil, "initial database differs from model:\n"+d)
 	}
@@ -275,10 +300,13 @@ func (e *Explorer) Run() {
 					capHit.Store(true)
 					continue
 				}
+				nm := st.Model.Clone()
+				for _, o := range e.Cfg.Programs[sc.prog] {
+					e.ops[o].Apply(nm)
+				}
 				ns := &State{
 					Id:     len(e.States),
-					Model:  sc.model,
-					Dump:   sc.tree,
+					Model:  nm,
 					Hash:   sc.hash,
 					Depth:  depth + 1,
 					Parent: st,
@@ -342,7 +370,7 @@ func (e *Explorer) materialise(states []*State) {
 				if opErr != nil {
 					e.violation("commit-differs-from-dry-run", ns.Parent, ns.Via, fmt.Sprintf("program succeeded in the observed transaction but failed when committed: %v", opErr))
 				} else if got.Hash() != ns.Hash {
-					e.violation("commit-differs-from-dry-run", ns.Parent, ns.Via, "committed database differs from the in-transaction image:\n"+dump.Diff(ns.Dump, got))
+					e.violation("commit-differs-from-dry-run", ns.Parent, ns.Via, "committed database differs from the in-transaction image; committed image:\n"+got.String())
 				}
 				if e.Cfg.PostCommit != nil {
 					e.Cfg.PostCommit(db, ns, e.Rep)
@@ -360,6 +388,8 @@ func (e *Explorer) expand(s *State) []succ {
 		panic(err)
 	}
 	defer db.Close()
+	var pre *dump.Tree
+	_ = db.View(func(tx *bbolt.Tx) error { pre = dump.Tx(tx); return nil })
 	var out []succ
 	seen := map[string]bool{}
 	for pi, program := range e.Cfg.Programs {
@@ -402,7 +432,7 @@ func (e *Explorer) expand(s *State) []succ {
 			var after *dump.Tree
 			_ = db.View(func(tx *bbolt.Tx) error { after = dump.Tx(tx); return nil })
 			if after.Hash() != s.Hash {
-				e.violation("rejected-transaction-changed-state", s, program, fmt.Sprintf("transaction failed with %q (%v) but the database changed:\n%s", implClass, opErr, dump.Diff(s.Dump, after)))
+				e.violation("rejected-transaction-changed-state", s, program, fmt.Sprintf("transaction failed with %q (%v) but the database changed:\n%s", implClass, opErr, dump.Diff(pre, after)))
 			}
 		}
 		if modelOk != (opErr == nil) || (opErr != nil && !contains(classes, implClass)) {
@@ -427,7 +457,10 @@ func (e *Explorer) expand(s *State) []succ {
 			continue
 		}
 		seen[h] = true
-		out = append(out, succ{prog: pi, hash: h, model: m, tree: post})
+		if _, known := e.byHash[h]; known { // byHash is only written between expansion phases
+			continue
+		}
+		out = append(out, succ{prog: pi, hash: h})
 	}
 	return out
 }
